@@ -377,6 +377,19 @@ def run_trace(cfg, ops):
                             v_ += [tb(arch[hi] == d_sw), tb(d_sw == arch[hi])]
                         else: v_ += [False, False]
                     out = dict(o='eqd', v=v_)
+                    # equality inside one class is about contents too, not about names: two stores with the same base name in
+                    # different directories (a copy made elsewhere), one left equal and one given an extra entry
+                    if cfg['kind'] in ('file', 'dir') and hand[hi] is arch[hi]:
+                        nscr[0] += 1
+                        sub = os.path.join(tmp, 'sib%d' % nscr[0]); os.mkdir(sub)
+                        S = arch[hi].copy(os.path.join(sub, os.path.basename(arch[hi].__state__['id'])))
+                        sib = [tb(arch[hi] == S), tb(S == arch[hi]), tb(arch[hi] != S)]
+                        xk = [k for k in key_pool(rng('sib', i), cfg['kind'], cfg['codec'], 'main') if k not in cur]
+                        if xk:
+                            S[xk[0]] = 1
+                            sib += [tb(arch[hi] == S), tb(S == arch[hi]), tb(arch[hi] != S)]
+                        else: sib += [False, False, True]
+                        out['sib'] = sib
                 elif kind == 'copyonto':
                     # copy(name) onto a name that already holds an archive with OTHER contents (monitor only, on a scratch target):
                     # the result is an archive equal to the source - or the call refuses and touches nothing
@@ -462,6 +475,10 @@ def monitor(tr):
                 return [dict(prop='C03', i=rec['i'], sig=dict(backend=cfg['kind'], codec=cfg['codec'], cause='none', what='eq', op='eq'),
                              msg='%s archive: == / != against a dict_archive with the same contents and one with an extra key gave %r '
                                  '(a==same, same==a, a==diff, diff==a, a!=same, diff!=a, then == both ways against same-size archives whose one differing key holds None / 0)' % (cfg['kind'], out['v']))]
+            if out.get('o') == 'eqd' and out.get('sib') not in (None, [True, True, False, False, False, True]):
+                return [dict(prop='C03', i=rec['i'], sig=dict(backend=cfg['kind'], codec=cfg['codec'], cause='none', what='eq-same-basename', op='eq'),
+                             msg='%s archive: a copy made under the same base name in another directory, then given one more entry: '
+                                 '(a==copy, copy==a, a!=copy) before and after the extra entry gave %r, a dict gives [True, True, False, False, False, True]' % (cfg['kind'], out['sib']))]
             if out.get('o') == 'copyonto' and not out['ok']:
                 return [dict(prop='C03', i=rec['i'], sig=dict(backend=cfg['kind'], codec=cfg['codec'], cause='none', what='copy-onto-existing', op='copy'),
                              msg='%s archive: copy(name) onto a name that already holds an archive %s; the target then holds %r, expected %r (the source when it returns, the untouched target when it refuses)' % (
